@@ -118,6 +118,10 @@ func runC07(c *fw.Case) (o fw.Outcome) {
 			o.Fail(fmt.Sprintf("nia%d-error", alg), "NASMacCalculate(NIA%d) error: %v", alg, err)
 			return
 		}
+		if m := retainCheck("mac", got, o.Input); m != "" {
+			o.Fail("retained-result-changed", "%s", m)
+			return
+		}
 		if !bytes.Equal(got, want) {
 			o.Fail(fmt.Sprintf("nia%d-mismatch", alg), "NIA%d MAC %x, 128-EIA%d gives %x (len %d, len mod 8 = %d)", alg, got, alg, want, n, n%8)
 			return
